@@ -501,7 +501,6 @@ func (w *cliWorld) peerSaw(raw string) {
 			// records a sloppy or hostile peer may send: none of them answers a request
 			w.nrep++
 			odd := []string{
-				`[]`,
 				`[17]`,
 				`{"jsonrpc":"2.0","id":null,"result":{"r":"nullid%d"}}`,
 				`{"jsonrpc":"2.0","result":{"r":"noid%d"}}`,
@@ -509,7 +508,7 @@ func (w *cliWorld) peerSaw(raw string) {
 				`{"jsonrpc":"2.0","id":[` + ob.ID + `],"result":{"r":"arrayid%d"}}`,
 				`"just a string"`,
 				`{"jsonrpc":"2.0","id":` + ob.ID + `0000,"error":{"code":1,"message":"otherid%d"}}`,
-			}[g.Int("oddrecord", 8)]
+			}[g.Int("oddrecord", 7)]
 			if strings.Contains(odd, "%d") {
 				odd = fmt.Sprintf(odd, w.nrep)
 			}
